@@ -13,7 +13,7 @@ CONSTANTS
   RouteKinds = {"ok", "miss", "noresp"}
   HandlerKinds = {"default", "close", "noop", "http"}
   FirstKinds = {"connect", "disc"}
-  MaxSteps = 4
+  MaxSteps = 5
   MaxClient = 3
   Depth = 0
 INVARIANT AtMostOneAccept
